@@ -8,6 +8,7 @@ mod compat;
 mod coerce;
 mod coord;
 mod digest;
+mod argc;
 mod docb;
 mod exec;
 mod execb;
@@ -59,6 +60,7 @@ fn main() {
         "exec-replay" => exec::replay(rest),
         "schema-cases" => aschema::cases(rest),
         "doc-cases" => adoc::cases(rest),
+        "argc-replay" => argc::replay(rest),
         "docb-replay" => docb::replay(rest),
         "rt-replay" => rt::replay(rest),
         "rt-record" => rt::record(rest),
